@@ -315,6 +315,22 @@ where
     /// Accepts a welcome
     pub fn accept_welcome(&self, welcome: &welcome_types::Welcome) -> Result<(), Error> {
         let welcome_preview = self.preview_welcome(&welcome.wrapper_event_id, &welcome.event)?;
+
+        // An invitation to a group the user is already active in is not joined again (accepting the
+        // same invitation twice): into_group() replaces the stored MLS state with the state at the
+        // invitation's epoch, which would rewind the group and cut the user off from it.
+        let staged_group_id: mdk_storage_traits::GroupId = welcome_preview
+            .staged_welcome
+            .group_context()
+            .group_id()
+            .clone()
+            .into();
+        if let Some(group) = self.get_group(&staged_group_id)?
+            && group.state == group_types::GroupState::Active
+        {
+            return Ok(());
+        }
+
         let mls_group = welcome_preview.staged_welcome.into_group(&self.provider)?;
 
         // Update the welcome to accepted
